@@ -68,6 +68,16 @@ of `Model/Reactive.lean` (the model and its theorems are untouched):
 * `wrap 6` — `Signal<Option<T>>::from(Signal<T>)`: transparent like the other wrappers.
 * `memof <sig>` — `ArcMemo::from(signal)` = `ArcMemo::new(move |_| signal.get())`: the memo `R<sig>`.  The harness
   cannot count the runs of a closure it did not write, so `memof` nodes are left out of `runs=` on both sides.
+* `selc <K> <expr>` — `Selector::new_with_fn(source, f)` with the non-equality comparator `f(key, v) = (v = key ∨
+  v = key + 1)`.  selector.rs: when the stored value changes from `prev` to `next`, EVERY registered key with
+  `f(key, next) ∨ f(key, prev)` is notified (whether or not its answer flips); `selected(k)` tracks key k's trigger and
+  answers `f(k, v)`.  Desugaring: K key `sig` nodes `t_j` holding `f(j, v)`, one hidden `sig` node `p` holding the
+  previous value (−1000 = none; not readable, not writable), and a render effect with body
+  `seq step_0 (… (seq step_{K-1} (wr p expr)))`,
+  `step_j = ite (expr − U p) (ite (flag_j(expr) + flag_j(U p)) (wr t_j flag_j(expr)) 0) 0`,
+  `flag_j(x) = (ite (x − j) 0 1) + (ite (x − j − 1) 0 1)`: a write notifies (`setSignal` always does), so exactly the keys
+  the real scan notifies are notified.  The body evaluates `expr` a varying number of times, so `eruns=` lists a `selc`
+  selector's runs WITHOUT the values read (both sides).  Everything else as for `sel`.
 * `oncl` — every effect run registers one `on_cleanup`; C02 lines then end in ` cl=<node>:<calls>,…` = for every effect,
   one call per run of this op that superseded an earlier run, plus one when it is disposed after having run.
 * `imeff <expr>` — `ImmediateEffect::new`: no task; the real effect runs inside the notification that reaches it.
@@ -113,6 +123,8 @@ structure DState where
   cleaned : List Nat := []
   /-- `memof` nodes -/
   froms : List Nat := []
+  /-- selector nodes made by `selc` -/
+  selcs : List Nat := []
   /-- run counts and liveness when the current op started (for `cl=`) -/
   runs0 : List Nat := []
   alive0 : List Bool := []
@@ -232,6 +244,20 @@ def immOk (p : Prog) (keys : List Nat) (b : Expr) : Bool :=
     | _ => false
   b.noWrite && b.noUntracked && !(b.directReads.any keys.contains) && shallow && pairwiseDisjoint anc
 
+/-- `selc`: 1 if `x = j` or `x = j + 1` -/
+def selcFlag (x : Expr) (j : Nat) : Expr :=
+  .add (.ite (.add x (.lit (-(Int.ofNat j)))) (.lit 0) (.lit 1))
+       (.ite (.add x (.lit (-(Int.ofNat j) - 1))) (.lit 0) (.lit 1))
+
+def selcStep (e : Expr) (t p j : Nat) : Expr :=
+  .ite (.add e (.mulc (-1) (.rd false p)))
+    (.ite (.add (selcFlag e j) (selcFlag (.rd false p) j)) (.wr t (selcFlag e j)) (.lit 0))
+    (.lit 0)
+
+/-- body of the render effect a `selc` selector desugars to (`p` = hidden node holding the previous value) -/
+def selcBody (e : Expr) (first k : Nat) : Expr :=
+  (List.range k).foldr (fun j acc => .seq (selcStep e (first + j) (first + k) j) acc) (.wr (first + k) e)
+
 def insertSorted (x : Nat) : List Nat → List Nat
   | [] => [x]
   | y :: ys => if x ≤ y then x :: y :: ys else y :: insertSorted x ys
@@ -270,7 +296,7 @@ def firstUnjust (log : List Ev) : Option Nat :=
   log.findSome? fun e => match e with | .unjust i => some i | _ => none
 
 /-- effect runs of one op: `e:v1,v2;e:v…` from the ghost log -/
-def effectRuns (p : Prog) (sels : List (Nat × Nat × Expr)) (imms : List Nat) (log : List Ev) : String :=
+def effectRuns (p : Prog) (sels : List (Nat × Nat × Expr)) (selcs imms : List Nat) (log : List Ev) : String :=
   let isEff (i : Nat) : Bool := match p[i]? with | some (.eff _) => true | _ => false
   -- fold: current list of (effect, reads) in order
   let runs : List (Nat × List Int) := log.foldl (fun acc e =>
@@ -286,7 +312,7 @@ def effectRuns (p : Prog) (sels : List (Nat × Nat × Expr)) (imms : List Nat) (
   -- a selector run evaluates its source K+1 times with the same reads: show them once
   let runs : List (Nat × List Int) := runs.map fun ((i, vs) : Nat × List Int) =>
     match sels.find? (fun (x : Nat × Nat × Expr) => x.1 == i) with
-    | some (_, k, _) => (i, vs.take (vs.length / (k + 1)))
+    | some (_, k, _) => if selcs.contains i then (i, []) else (i, vs.take (vs.length / (k + 1)))
     | none => (i, vs)
   -- immediate effects after the others, by node id
   let runs := runs.filter (fun x => !imms.contains x.1) ++
@@ -365,7 +391,7 @@ def afterOp (m : Mode) (d : DState) (read : Option (Nat × Int)) : String :=
       | none => "ok"
     "runs=" ++ ",".intercalate (runs.map fun (i, c) => s!"{i}:{c}") ++ " ## " ++ verdict
   | .c02 =>
-    let base := "eruns=" ++ effectRuns d.prog d.sels d.imms s.log ++ " woke=" ++ showIds (wokeList d.keys d.imms s.log) ++ " ready=" ++ showIds (ready s)
+    let base := "eruns=" ++ effectRuns d.prog d.sels d.selcs d.imms s.log ++ " woke=" ++ showIds (wokeList d.keys d.imms s.log) ++ " ready=" ++ showIds (ready s)
     let base := if d.oncl then base ++ " cl=" ++ cleanupCalls d else base
     match idleVerdict d.prog d.sels s d.pausedAt with
     | some v => base ++ " ## " ++ v
@@ -449,7 +475,7 @@ def doSet (m : Mode) (d : DState) (id : Nat) (v : Int) : DState × String :=
 def scopeGuard (d : DState) (ws : List String) : List String :=
   match ws with
   | kw :: _ =>
-    if d.inScope && (kw == "memof" || kw == "ssig" || kw == "slice" || kw == "sel" || kw == "eff" || kw == "reff" || kw == "imeff")
+    if d.inScope && (kw == "selc" || kw == "memof" || kw == "ssig" || kw == "slice" || kw == "sel" || kw == "eff" || kw == "reff" || kw == "imeff")
     then ["bad-op"] else ws
   | [] => ws
 
@@ -550,6 +576,28 @@ def stepLine (m : Mode) (d : DState) (line : String) : DState × String :=
         let d := { d with leaves := d.leaves ++ [d.prog.length] }
         let d := { d with prog := d.prog ++ [.memo b], s := { d.s with nodes := d.s.nodes ++ [initNode (.memo b)] } }
         (d, if m == .c02 then "ok ready=" ++ showIds (ready d.s) else "ok")
+      else (d, "bad-op")
+    | _, _ => (d, "bad-op")
+  | "selc" :: k :: toks =>
+    match k.toNat?, parseBody toks with
+    | some k, some src =>
+      let first := d.prog.length
+      if 2 ≤ k && k ≤ 8 && wfNode d.prog first (.memo src) && okBody d src then
+        let hidden := first + k
+        let node := first + k + 1
+        let keyDefs := List.replicate k (NodeDef.sig 0) ++ [NodeDef.sig (-1000)]
+        let body := selcBody src first k
+        let d := { d with
+          prog := d.prog ++ keyDefs ++ [.eff body],
+          s := { d.s with nodes := d.s.nodes ++ keyDefs.map initNode ++ [initNode (.eff body)] },
+          keys := d.keys ++ (List.range (k + 1)).map (first + ·),
+          leaves := d.leaves ++ [hidden],
+          dropped := d.dropped ++ [hidden],
+          sels := d.sels ++ [(node, k, src)],
+          selcs := d.selcs ++ [node] }
+        let d := clearLog d
+        let d := flush { d with s := initRenderEffect d.prog d.s node }
+        (d, if m == .c02 then "ok " ++ afterOp m d none else if m == .c09 then afterOp m d none else "ok")
       else (d, "bad-op")
     | _, _ => (d, "bad-op")
   | "sel" :: k :: toks =>
